@@ -103,7 +103,7 @@ Record upd_inv (i : N) (c c1 vw upd : cmap) : Prop := {
       exists v, lookup k upd = Some v /\ pv_deleted v = true /\ pv_path v = k;
   ui_cases : forall k v, lookup k upd = Some v ->
       In (k, v) c1 \/
-      (pv_path v = k /\ pv_deleted v = true /\ In k (paths vw) /\
+      (pv_path v = k /\ pv_deleted v = true /\ pv_index v = i /\ In k (paths vw) /\
        exists kc cv, In (kc, cv) c1 /\ pv_deleted cv = true /\ Below k kc);
   ui_kids : forall k kc cv, In k (paths vw) -> In (kc, cv) c1 -> pv_deleted cv = true -> Below k kc -> lookup k upd <> None }.
 
@@ -148,11 +148,11 @@ Proof.
     + intros k v Hl. rewrite lookup_insert, <- Hk0 in Hl. deq k k0.
       * injection Hl as <-. subst k. left. apply in_app_iff. right. left. reflexivity.
       * destruct (kids_fold_cases mark kids upd k) as [[_ Hl2]|(kv & Hkv & Hp & Hl2)].
-        -- rewrite Hl2 in Hl. destruct (Ucases _ _ Hl) as [Hin|(H2 & H3 & H5 & kc & cv & H6 & H7)].
+        -- rewrite Hl2 in Hl. destruct (Ucases _ _ Hl) as [Hin|(H2 & H3 & H4 & H5 & kc & cv & H6 & H7)].
            ++ left. apply in_app_iff. auto.
            ++ right. repeat (split; [assumption|]). exists kc, cv. split; [apply in_app_iff; auto|exact H7].
         -- rewrite Hl2 in Hl. injection Hl as <-. destruct (Hkid _ Hkv) as [Hs Hb]. rewrite Hp in Hb. right.
-           split; [exact Hp|]. split; [reflexivity|]. split.
+           split; [exact Hp|]. split; [reflexivity|]. split; [reflexivity|]. split.
            { rewrite <- Hst. unfold paths. rewrite <- Hp. apply (in_map (fun kv => pv_path (snd kv))). exact Hs. }
            exists k0, cv0. split; [apply in_app_iff; right; left; reflexivity|]. split; assumption.
     + intros k kc cv Hk Hin Hd Hb. rewrite lookup_insert, <- Hk0. deq k k0; [discriminate|].
@@ -174,7 +174,7 @@ Proof.
       deq k k0; [exfalso; exact (Hne _ _ Hin E)|]. apply (Udel _ _ Hin Hd).
     + intros k v Hl. rewrite lookup_insert, <- Hk0 in Hl. deq k k0.
       * injection Hl as <-. subst k. left. apply in_app_iff. right. left. reflexivity.
-      * destruct (Ucases _ _ Hl) as [Hin|(H2 & H3 & H5 & kc & cv & H6 & H7)].
+      * destruct (Ucases _ _ Hl) as [Hin|(H2 & H3 & H4 & H5 & kc & cv & H6 & H7)].
         -- left. apply in_app_iff. auto.
         -- right. repeat (split; [assumption|]). exists kc, cv. split; [apply in_app_iff; auto|exact H7].
     + intros k kc cv Hk Hin Hd Hb. rewrite lookup_insert, <- Hk0. deq k k0; [discriminate|].
